@@ -1,8 +1,22 @@
 # Per-property configuration of bin/check.
 PROPS = {
     "C19": {
-        "rule": "all chains x all trust lists over a pool of 7 real certificates with look-alikes (same subject+key other serial / other validity / other key / cross-signed), exhaustive up to the length in extra.exhaustive_up_to_len, sampled beyond; non-trivial = chain and trust list both non-empty; distinct by Coq term",
+        "level_text": "C19_iff / C19_some_iff / C19_only_raw / C19_arg_errors / C19_ast_iff are proved for chains and trust lists of every length (induction), closed under the global context; the model is run against the implementation on every chain x trust list over a 9-certificate look-alike pool up to the stated length.",
+        "technique": "Coq theorem: executable scan <-> declarative leaf-most first match (all lengths) + exhaustive small-scope differential correspondence",
+        "rule": "all chains x all trust lists over a pool of 9 real certificates with look-alikes (same subject+key other serial / other validity / other key / cross-signed; re-issued and cross-signed CA look-alikes), exhaustive up to the length in extra.exhaustive_up_to_len, sampled beyond; non-trivial = chain and trust list both non-empty; distinct by Coq term",
         "exhaustive": True,
         "assumptions": ["x509.Certificate.Equal compares raw DER (library oracle); returned certificate identified by pointer identity in the trust slice"],
+    },
+    "C03": {
+        "level_text": "C03_exact proves, for chains of every length and every signature oracle, that the model of ValidateCodeSigningCertChain accepts exactly the chains meeting the declarative text of the property (position-by-position Forall spec); since model = spec by theorem every disagreement between model and implementation on a generated chain is reported as a violation with that chain.",
+        "technique": "Coq theorem: loop model <-> declarative conformance (induction over the chain) + differential correspondence on generated real certificates",
+        "rule": "conformant chains of length 1..max_len (extra.max_len) for six leaf key kinds; every single modification (about 60: each key-usage bit, KU absent/non-critical, each EKU, CA flag, BC, path length depth-1/depth/depth+1/0, wrong issuer name, wrong signer key, self-signed in place, re-issued twin of the next certificate, root not self-signed, unsupported keys, validity) at every position; swaps, reversal, drops, duplicates; (benign, violation) pairs; signing time nil / mid / at and 1 ns / 1 s outside each bound of each certificate; random stacks. Oracle answers (CheckSignatureFrom matrix, CheckSignature) computed by calling the stdlib on the generated certificates. non-trivial = modified or accepted; distinct by Coq term",
+        "assumptions": ["crypto/x509 parsing and signature checks are oracles; the abstract certificate is read from the parsed x509.Certificate's public fields"],
+    },
+    "C14": {
+        "level_text": "C14_exact (under WF, a fact about parsed certificates) proves model of ValidateTimestampingCertChain <-> declarative TSA-chain conformance for every chain length; C14_shared_walk states the shared ordering/issuance/root/CA walk; the revocation validator's demand is observed through purpose.Timestamping.",
+        "technique": "Coq theorem: loop model <-> declarative conformance (induction over the chain) + differential correspondence on generated real certificates",
+        "rule": "as C03 with a TSA-conformant base chain, plus all 16 subsets of {timeStamping, codeSigning, any, unknown OID} x both criticalities as the leaf EKU for chain lengths 1..3; observed through ValidateTimestampingCertChain and through the revocation validator configured with purpose.Timestamping",
+        "assumptions": ["crypto/x509 parsing and signature checks are oracles; WF (EKU criticality code in {0,1,2}, non-empty ExtKeyUsage implies the extension is present) is a fact about crypto/x509 parsing"],
     },
 }
